@@ -183,6 +183,18 @@ class PathEnum:
         if isinstance(e, ast.UnaryOp) and isinstance(e.op, ast.Not):
             v = self.const_of(e.operand, p, fr)
             return _UNKNOWN if v is _UNKNOWN else (not v)
+        if isinstance(e, ast.Call) and isinstance(e.func, ast.Name) and e.func.id == 'isinstance' and len(e.args) == 2 \
+                and isinstance(e.args[0], ast.Name) and e.args[0].id == 'self' and isinstance(e.args[1], ast.Name):
+            # the receiver's concrete class is the one the enumeration was started for
+            root = fr
+            while isinstance(root, _LambdaFrame):
+                root = root.defining
+            cls = getattr(root, 'cls', None)
+            mod = getattr(getattr(root, 'func', None), 'mod', None)
+            if cls is not None and mod is not None and not any((f_.fid, 'self') in p.env for f_ in (root,)):
+                r = self.idx.lookup(mod, e.args[1].id)
+                if r and r[0] == 'class':
+                    return r[1] in self.idx.mro(cls)
         if isinstance(e, ast.Compare) and len(e.ops) == 1 and isinstance(e.ops[0], (ast.Is, ast.IsNot, ast.Eq, ast.NotEq)):
             a, b = self.const_of(e.left, p, fr), self.const_of(e.comparators[0], p, fr)
             if a is not _UNKNOWN and b is not _UNKNOWN:
